@@ -20,3 +20,15 @@ def InstantG() -> Obj:
 
 def LocalTimeG() -> Obj:
     return Obj("pyoda_time._local_time:LocalTime", {"_LocalTime__nanoseconds": Int()}, inv=V.inv_local_time)
+
+
+def InstantAnyG() -> Obj:
+    return Obj("pyoda_time._instant:Instant", {"_Instant__duration": DurationG()}, inv=V.inv_instant_any)
+
+
+def LocalInstantG() -> Obj:
+    return Obj("pyoda_time._local_instant:_LocalInstant", {"_LocalInstant__duration": DurationG()}, inv=V.inv_linstant_valid)
+
+
+def LocalInstantAnyG() -> Obj:
+    return Obj("pyoda_time._local_instant:_LocalInstant", {"_LocalInstant__duration": DurationG()}, inv=V.inv_linstant_any)
